@@ -1391,6 +1391,12 @@ func (x *g) ifStmt(d int) string {
 			if strings.Contains(inner, "let ") || strings.Contains(inner, "const ") || strings.Contains(inner, "class ") || strings.Contains(inner, "function") {
 				els = "{$(" + x.numLit() + ")}"
 			}
+			// both branches end in a jump and the then-branch declares something lexical: the condition may be inverted and
+			// the then-block dissolved instead (same finding)
+			if lexThen := strings.Contains(s, "let ") || strings.Contains(s, "const ") || strings.Contains(s, "class ") || strings.Contains(s, "function"); lexThen &&
+				(strings.Contains(inner, "break") || strings.Contains(inner, "continue") || strings.Contains(inner, "return") || strings.Contains(inner, "throw")) {
+				els = "{$(" + x.numLit() + ")}"
+			}
 			return s + "else" + els
 		}
 		lexThen := strings.Contains(s, "let ") || strings.Contains(s, "const ") || strings.Contains(s, "class ") || strings.Contains(s, "function")
